@@ -124,6 +124,7 @@ type textEdit struct {
 // over the passes so that a body copied in a later pass cannot clash with the
 // names generated for its own earlier inlinings.
 var inlineUniq int
+var inlinePkgUniq int
 
 var inlTagRe = regexp.MustCompile(`\b(_inl[0-9]+(?:s[0-9]+)*)`)
 
@@ -533,7 +534,8 @@ func normalise(mod []*packages.Package, fset *token.FileSet, known map[string]bo
 					if a, ok := imports[s.file][path]; ok {
 						return a
 					}
-					a := fmt.Sprintf("_inlpkg%d", len(imports[s.file])+1)
+					inlinePkgUniq++ // unique over all passes: a later pass must not reuse a name an earlier one added to the file
+					a := fmt.Sprintf("_inlpkg%d", inlinePkgUniq)
 					imports[s.file][path] = a
 					return a
 				}
